@@ -697,6 +697,14 @@ fn c17_from_c12(v: Vec<Finding>) -> Vec<Finding> {
 		.collect()
 }
 
+/// C12 findings about calls whose closure panicked, read as C11 findings
+fn c11_from_c12(v: Vec<Finding>) -> Vec<Finding> {
+	v.into_iter()
+		.filter(|f| f.prop == "C12" && f.sig.contains("+closure-panics") && (f.sig.starts_with("leak|") || f.sig.starts_with("illegal-release:")))
+		.map(|f| Finding { prop: "C11", sig: format!("leak-after-panic|raw-panic|{}", f.sig), ..f })
+		.collect()
+}
+
 /// C12 findings that are about a hold which is not released exactly once, or
 /// about a release of a lock the caller does not hold, read as C05 findings
 fn c05_from_c12(v: Vec<Finding>) -> Vec<Finding> {
@@ -760,6 +768,7 @@ pub fn replay_findings(path: &str, verbose: bool) -> Result<(String, Vec<Finding
 					"C12" => f.extend(cf),
 					"C17" => f.extend(c17_from_c12(cf)),
 					"C05" => f.extend(c05_from_c12(cf)),
+					"C11" => f.extend(c11_from_c12(cf)),
 					_ => {}
 				}
 			}
@@ -1140,6 +1149,21 @@ fn c11(tier: Tier, seed: u64) -> i32 {
 		let case = gen_conc(&mut Src::new(bytes), &ccfg);
 		eval_conc_case(&ce, &case, want)
 	});
+	// a panicking closure whose clean-up meets a raw lock that panics as well:
+	// C12's fault enumeration over the base cases with a panicking closure,
+	// read for what stays held afterwards
+	{
+		let n = tier.pick(30_000, 800_000);
+		ctx.search("seq-closure-panic-then-raw-faults", n, 160, |bytes, want| {
+			let mut rep = c12_eval(bytes, want);
+			let keep = c11_from_c12(rep.violations.drain(..).collect());
+			if keep.is_empty() {
+				rep.replay = None;
+			}
+			rep.violations = keep;
+			rep
+		});
+	}
 	ctx.require_label("panic_in_scoped", 1000);
 	ctx.require_label("panic_with_guard", 1000);
 	ctx.finish()
@@ -2256,6 +2280,9 @@ pub fn conc_profile(prop: &str) -> Option<ConcCfg> {
 			// some member lists keep their duplicates: the checked constructor must
 			// reject them, otherwise one thread waits for a lock it holds itself
 			cfg.world.p_allow_dup = 50;
+			// a lock killed (by anybody) while it is held or waited for: the
+			// holder still lets go, a thread already waiting still gets it
+			cfg.p_kill_step = 25;
 			Some(cfg)
 		}
 		"C02" => {
@@ -2266,7 +2293,8 @@ pub fn conc_profile(prop: &str) -> Option<ConcCfg> {
 			cfg.p_debug_in_body = 30;
 			Some(cfg)
 		}
-		"C05" | "C04" | "C03" | "C08" => Some(ConcCfg::default()),
+		"C05" | "C04" | "C03" => Some(ConcCfg { p_kill_step: 12, ..ConcCfg::default() }),
+		"C08" => Some(ConcCfg::default()),
 		"C10" => {
 			let mut cfg = ConcCfg::default();
 			cfg.world.p_wrap = 170;
